@@ -107,6 +107,9 @@ func pureFn(fn *ssa.Function, depth int) bool {
 	if depth > 3 {
 		return false
 	}
+	if fn.Pkg != nil {
+		fn.Pkg.Build()
+	}
 	if fn.Blocks == nil {
 		return false
 	}
